@@ -251,6 +251,18 @@ func (ex *Exec) verifIntrinsic(st *State, fr *Frame, short string, fv FuncV, arg
 		ex.installProgress(st, args)
 		setRes(st, res, TupleV{})
 		return true
+	case short == "verifLoopBound":
+		sfx, _ := args[0].(StrV).concrete()
+		b := args[1].(*Term)
+		if !b.isConst {
+			fail("verifLoopBound needs a constant")
+		}
+		if ex.loopBounds == nil {
+			ex.loopBounds = map[string]int{}
+		}
+		ex.loopBounds[sfx] = int(b.v)
+		setRes(st, res, TupleV{})
+		return true
 	case short == "verifAllocBound":
 		ex.allocBound = args[0].(*Term)
 		setRes(st, res, TupleV{})
